@@ -621,6 +621,18 @@ _archive_write_disk_header(struct archive *_a, struct archive_entry *entry)
 	a->restore_pwd = -1;
 	a->uid = a->user_uid;
 	a->mode = archive_entry_mode(a->entry);
+	/*
+	 * An entry that carries a symlink target is restored as a symbolic
+	 * link whatever file type it declares.  Make the mode say so too,
+	 * or the steps that restore mode, times and attributes would treat
+	 * the link as the kind of object the entry claims to be, and follow
+	 * it.
+	 */
+	if (archive_entry_hardlink(a->entry) == NULL &&
+	    archive_entry_symlink(a->entry) != NULL && !S_ISLNK(a->mode)) {
+		a->mode = AE_IFLNK | (a->mode & 07777);
+		archive_entry_set_filetype(a->entry, AE_IFLNK);
+	}
 	if (archive_entry_size_is_set(a->entry))
 		a->filesize = archive_entry_size(a->entry);
 	else
